@@ -1085,4 +1085,142 @@ theorem place_inside (d dir : Path) (n : Name) (h : dir.all acceptedComponent = 
   simp only [Bool.false_eq_true, if_false]
   rw [key_norm, key_append, key_append, key_normal, List.append_assoc]
 
+/-! ### what a run leaves alone ("only when needed", "nothing else is written") -/
+
+/-- one compare-then-write of `o'` targets no path that exists already, other than `o'` itself:
+    `mkdir` only where nothing is, the temp name only if it is free (`O_EXCL`) -/
+theorem writeIfChanged_avoids {fs : FS} {nm : Name} {o' : Path} {b' : Bytes} {p : Path}
+    (hp : fs p ≠ none) (hne : p ≠ o') :
+    ∀ op ∈ (writeIfChanged fs nm o' b').1, p ∉ op.targets := by
+  intro op hop
+  unfold writeIfChanged at hop
+  split at hop
+  · cases hop
+  cases hdir : parent o' with
+  | none => simp [withOutputFile, hdir] at hop
+  | some dir =>
+  have hd := parent_eq hdir
+  subst hd
+  cases hmk : mkdirAll fs o'.dropLast with
+  | none => simp [withOutputFile, hdir, hmk] at hop
+  | some mk =>
+  have hspec := mkdirAll_spec hmk
+  rw [withOutputFile_eq hdir hmk] at hop
+  have hmkop : ∀ op ∈ mk, p ∉ op.targets := by
+    intro op h
+    obtain ⟨q, _, e, hnone⟩ := hspec op h
+    subst e
+    simp only [Op.targets, List.mem_singleton]
+    intro e; subst e; exact hp hnone
+  split at hop
+  · exact hmkop op hop
+  · rename_i hfresh
+    have hfree : fs (o'.dropLast ++ [.normal nm]) = none := by simpa using hfresh
+    have hpt : p ≠ o'.dropLast ++ [.normal nm] := by
+      intro e; subst e; exact hp hfree
+    split at hop
+    · rcases List.mem_append.mp hop with h | h
+      · exact hmkop op h
+      · simp only [List.mem_cons, List.not_mem_nil, or_false] at h
+        rcases h with rfl | rfl | rfl <;> simp [Op.targets, hpt]
+    · rcases List.mem_append.mp hop with h | h
+      · exact hmkop op h
+      · simp only [List.mem_cons, List.not_mem_nil, or_false] at h
+        rcases h with rfl | rfl | rfl | rfl <;> simp [Op.targets, hpt, hne]
+
+/-- … and none at all if `o'` already holds the content -/
+theorem writeIfChanged_avoids' {fs : FS} {nm : Name} {o' : Path} {b' : Bytes} {p : Path} {c : Bytes}
+    (hp : fs p = some (.file c)) (hsame : p = o' → b' = c) :
+    ∀ op ∈ (writeIfChanged fs nm o' b').1, p ∉ op.targets := by
+  by_cases hpo : p = o'
+  · subst hpo
+    have := hsame rfl
+    subst this
+    rw [writeIfChanged_skip hp]
+    intro op hop; cases hop
+  · exact writeIfChanged_avoids (by simp [hp]) hpo
+
+theorem file_avoids {opts : Options} {tmp : Nat → Name} (htmp : ∀ k, IsTempName (tmp k)) {fs : FS} {k : Nat}
+    {src : Source} {p : Path} {c : Bytes} (hp : fs p = some (.file c))
+    (hall : ∀ b, (p, b) ∈ sourceOutputs opts src → b = c) :
+    ∀ op ∈ (generateUiFile opts tmp fs k src).1, p ∉ op.targets := by
+  intro op hop
+  unfold generateUiFile at hop
+  unfold sourceOutputs at hall
+  cases hpl : planFile opts src with
+  | error st => simp [hpl] at hop
+  | ok uh =>
+    obtain ⟨u, hh⟩ := uh
+    obtain ⟨⟨bu, nu, eu, tu⟩, _⟩ := plan_last hpl
+    have hne1 := temp_ne_of_last eu tu (htmp k)
+    simp only [hpl] at hop hall
+    have h1 : ∀ op ∈ (writeIfChanged fs (tmp k) u.1 u.2).1, p ∉ op.targets :=
+      writeIfChanged_avoids' hp (fun e => hall u.2 (by simp [e]))
+    split at hop
+    · exact h1 op hop
+    · rename_i hok1
+      have hok1' : (writeIfChanged fs (tmp k) u.1 u.2).2 = .ok := by simpa using hok1
+      split at hop
+      · exact h1 op hop
+      · rename_i hnd
+        rcases List.mem_append.mp hop with h | h
+        · exact h1 op h
+        · have hp' := writeIfChanged_preserves hok1' hne1 hp (fun e => hall u.2 (by simp [e]))
+          exact writeIfChanged_avoids' hp' (fun e => hall hh.2 (by simp [hnd, e])) op h
+
+theorem loop_avoids {opts : Options} {tmp : Nat → Name} (htmp : ∀ k, IsTempName (tmp k)) :
+    ∀ (srcs : List Source) (fs : FS) (k : Nat) (diag : Bool), NoCollision (execOutputs opts srcs) →
+    ∀ (p : Path) (c : Bytes), fs p = some (.file c) → (∀ b, (p, b) ∈ execOutputs opts srcs → b = c) →
+    ∀ op ∈ (generateUiLoop opts tmp fs k diag srcs).1, p ∉ op.targets := by
+  intro srcs
+  induction srcs with
+  | nil => intro fs k diag _ p c _ _ op hop; simp [generateUiLoop] at hop
+  | cons src rest ih =>
+    intro fs k diag hnc p c hp hall op hop
+    cases hpl : planFile opts src with
+    | error st =>
+      have hst := planFile_error_ne_ok hpl
+      simp only [generateUiLoop, generateUiFile_error hpl] at hop
+      by_cases hd : st = .diagnostic
+      · subst hd
+        rw [execOutputs_cons_diag hpl] at hnc hall
+        simp only [ne_eq, not_true_eq_false, and_false, if_false, run_nil, List.nil_append] at hop
+        exact ih fs k _ hnc p c hp hall op hop
+      · simp [hst.1, hd] at hop
+    | ok uh =>
+      rw [execOutputs_cons_ok hpl] at hnc hall
+      have hnc1 : NoCollision (sourceOutputs opts src) :=
+        fun o b b' h1 h2 => hnc o b b' (List.mem_append_left _ h1) (List.mem_append_left _ h2)
+      have hnc2 : NoCollision (execOutputs opts rest) :=
+        fun o b b' h1 h2 => hnc o b b' (List.mem_append_right _ h1) (List.mem_append_right _ h2)
+      have hall1 : ∀ b, (p, b) ∈ sourceOutputs opts src → b = c := fun b hb => hall b (List.mem_append_left _ hb)
+      have hfile := file_avoids htmp (k := k) hp hall1
+      simp only [generateUiLoop] at hop
+      split at hop
+      · exact hfile op hop
+      · rename_i hcont
+        rcases List.mem_append.mp hop with h | h
+        · exact hfile op h
+        · by_cases hr : (generateUiFile opts tmp fs k src).2.2 = .ok
+          · have hp' := (file_rerun htmp hr hnc1).2 p c hp hall1
+            exact ih _ _ _ hnc2 p c hp' (fun b hb => hall b (List.mem_append_right _ hb)) op h
+          · rcases file_status (tmp := tmp) (fs := fs) (k := k) hpl with e | e
+            · exact absurd e hr
+            · exfalso
+              apply hcont
+              refine ⟨hr, ?_⟩
+              intro e'; rw [e'] at e; cases e
+
+theorem generateUi_avoids {opts : Options} {tmp : Nat → Name} (htmp : ∀ k, IsTempName (tmp k)) {fs : FS}
+    {srcs : List Source} (hnc : NoCollision (execOutputs opts srcs)) {p : Path} {c : Bytes}
+    (hp : fs p = some (.file c)) (hall : ∀ b, (p, b) ∈ execOutputs opts srcs → b = c) :
+    ∀ op ∈ (generateUi opts tmp fs srcs).1, p ∉ op.targets := by
+  intro op hop
+  unfold generateUi at hop
+  split at hop
+  · cases hop
+  · split at hop
+    · cases hop
+    · exact loop_avoids htmp srcs fs 0 false hnc p c hp hall op hop
+
 end QV.Proofs.Cli
